@@ -12,47 +12,119 @@
    "the certificate list is different" is structural: a different x509
    certificate for the SAME key is a different certificate
    (c39_certificate_identity; c39_ex_key_only_equality_would_accept shows the
-   statements fail for a comparison by key alone). *)
+   statements fail for a comparison by key alone).
+
+   Round 4: a certificate also carries the instant its Expires() returns
+   (c_expires, 0 = the zero time.Time) and the clock is an input (now).
+   initConfiguration (NewPeerConnection) rejects a list with an expired
+   certificate (c39_init_rejects_expired; the IsZero arm:
+   c39_zero_expiry_never_expired).  SetConfiguration reads no clock and has no
+   expiry check (c39_set_configuration_no_expiry_check).  Certificate.Equals
+   does not look at the expiry, and SetConfiguration stores the ARGUMENT's
+   certificate list as soon as it compared equal -- before the remaining
+   checks.  So for a certificate object that is the stored one for Equals but
+   reports another expiry (CertificateFromX509 with a copied *x509.Certificate
+   whose NotAfter was overwritten) the statements "a rejected call leaves the
+   configuration exactly as it was" and "a successful call keeps the
+   certificates" are FALSE for the code: _refuted below, _partial under
+   expiry_agrees (position by position, a named certificate with the stored
+   one's x509 identity reports the stored one's expiry), _upto_expiry without
+   any guard (everything but the reported expiry is kept). *)
 From Coq Require Import List Bool String NArith ZArith.
 Import ListNotations.
 From Verif Require Import Common.Base Model.Config Proofs.Config.
 Open Scope string_scope.
 
-(* a rejected call (any error, or a panic) leaves GetConfiguration exactly as it was *)
-Theorem c39_reject_unchanged : forall closed has_local cur new c' r,
+(* FULL STATEMENT, false for the code:
+     forall closed has_local cur new c' r,
+       set_configuration closed has_local cur new = (c', r) -> r <> Ok tt -> c' = cur.
+   A rejected call can leave the stored certificate reporting another expiry *)
+Theorem c39_reject_unchanged_refuted : exists closed has_local cur new c' r,
+  set_configuration closed has_local cur new = (c', r) /\ r <> Ok tt /\ c' <> cur /\
+  changes_certs cur new = false /\
+  map c_expires (certs c') <> map c_expires (certs cur).
+Proof. exact reject_unchanged_refuted. Qed.
+Print Assumptions c39_reject_unchanged_refuted.
+
+(* a rejected call (any error, or a panic) leaves GetConfiguration exactly as
+   it was -- for every clock (none is read), every stored configuration and
+   every argument whose certificates agree with the stored ones on the expiry *)
+Theorem c39_reject_unchanged_partial : forall closed has_local cur new c' r,
+  expiry_agrees (certs cur) (certs new) = true ->
   set_configuration closed has_local cur new = (c', r) -> r <> Ok tt -> c' = cur.
-Proof. exact reject_unchanged. Qed.
-Print Assumptions c39_reject_unchanged.
+Proof. exact reject_unchanged_partial. Qed.
+Print Assumptions c39_reject_unchanged_partial.
+
+(* no guard: a rejected call leaves everything but the expiry the stored
+   certificates report; their key type, key and x509 identity stay *)
+Theorem c39_reject_unchanged_upto_expiry : forall closed has_local cur new c' r,
+  set_configuration closed has_local cur new = (c', r) -> r <> Ok tt ->
+  with_certs c' (certs cur) = cur /\ map cert_id (certs c') = map cert_id (certs cur).
+Proof. exact reject_unchanged_upto_expiry. Qed.
+Print Assumptions c39_reject_unchanged_upto_expiry.
 
 (* every attempt to change an immutable setting is rejected, with
-   InvalidModificationError, whatever else the call contains *)
+   InvalidModificationError, whatever else the call contains -- no guard *)
 Theorem c39_change_rejected : forall has_local cur new,
   changes_immutable has_local cur new = true ->
-  set_configuration false has_local cur new = (cur, Err E_modification).
-Proof. exact change_rejected. Qed.
+  snd (set_configuration false has_local cur new) = Err E_modification.
+Proof. exact change_rejected_class. Qed.
 Print Assumptions c39_change_rejected.
+
+(* ... with nothing stored (full statement "= (cur, Err E_modification)" is
+   false by the witness of c39_reject_unchanged_refuted) *)
+Theorem c39_change_rejected_partial : forall has_local cur new,
+  expiry_agrees (certs cur) (certs new) = true ->
+  changes_immutable has_local cur new = true ->
+  set_configuration false has_local cur new = (cur, Err E_modification).
+Proof. exact change_rejected_partial. Qed.
+Print Assumptions c39_change_rejected_partial.
+
+(* FULL STATEMENT, false for the code: a successful call keeps the certificates *)
+Theorem c39_immutable_refuted : exists closed has_local cur new c',
+  set_configuration closed has_local cur new = (c', Ok tt) /\ certs c' <> certs cur /\
+  changes_certs cur new = false.
+Proof. exact immutable_kept_refuted. Qed.
+Print Assumptions c39_immutable_refuted.
 
 (* a successful call keeps bundle policy, rtcp-mux policy, peer identity,
    certificates -- and the pool size and SDP semantics, with or without a
    local description *)
-Theorem c39_immutable : forall closed has_local cur new c',
+Theorem c39_immutable_partial : forall closed has_local cur new c',
+  expiry_agrees (certs cur) (certs new) = true ->
   set_configuration closed has_local cur new = (c', Ok tt) ->
   bundle c' = bundle cur /\ rtcpmux c' = rtcpmux cur /\ identity c' = identity cur /\
   certs c' = certs cur /\ pool c' = pool cur /\ semantics c' = semantics cur.
-Proof. exact immutable_kept. Qed.
-Print Assumptions c39_immutable.
+Proof. exact immutable_kept_partial. Qed.
+Print Assumptions c39_immutable_partial.
+
+(* no guard: all of it but the expiry the certificates report *)
+Theorem c39_immutable_upto_expiry : forall closed has_local cur new c',
+  set_configuration closed has_local cur new = (c', Ok tt) ->
+  bundle c' = bundle cur /\ rtcpmux c' = rtcpmux cur /\ identity c' = identity cur /\
+  map cert_id (certs c') = map cert_id (certs cur) /\ pool c' = pool cur /\
+  semantics c' = semantics cur.
+Proof. exact immutable_kept_upto_expiry. Qed.
+Print Assumptions c39_immutable_upto_expiry.
 
 (* certificate identity is the x509 certificate together with its key, not
-   the key: a call that names, at any position, a certificate other than the
-   stored one is rejected and changes nothing -- in particular (second clause)
-   another x509 certificate issued for the very same key (c_key c = c_key n is
-   allowed), and a stored list in another order or with duplicates *)
+   the key: a call that names, at any position, a certificate Equals can tell
+   from the stored one is rejected and changes nothing -- in particular
+   (second clause) another x509 certificate issued for the very same key
+   (c_key c = c_key n is allowed), and a stored list in another order or with
+   duplicates.  No guard: these are rejected before anything is stored *)
 Theorem c39_certificate_identity : forall has_local cur new i c n,
   nth_error (certs cur) i = Some c -> nth_error (certs new) i = Some n ->
-  (c <> n -> set_configuration false has_local cur new = (cur, Err E_modification)) /\
+  (cert_id c <> cert_id n -> set_configuration false has_local cur new = (cur, Err E_modification)) /\
   (c_x509 c <> c_x509 n -> set_configuration false has_local cur new = (cur, Err E_modification)).
 Proof. exact certificate_identity. Qed.
 Print Assumptions c39_certificate_identity.
+
+(* the one thing the comparison does not see is the expiry *)
+Theorem c39_expiry_not_compared : forall c n,
+  cert_id c = cert_id n -> cert_equals c n = cert_equals c c.
+Proof. exact expiry_not_compared. Qed.
+Print Assumptions c39_expiry_not_compared.
 
 (* and naming the stored certificates again (a re-import of the same key and
    the same x509 certificate is the same triple) is not a change *)
@@ -62,11 +134,12 @@ Theorem c39_same_certificates_accepted : forall cur new,
 Proof. exact same_certificates_no_change. Qed.
 Print Assumptions c39_same_certificates_accepted.
 
-(* what a successful call does change: exactly the mutable tail *)
+(* what a successful call does change: exactly the mutable tail -- and the
+   stored certificate list becomes the argument's (adopt_certs) *)
 Theorem c39_success_effect : forall closed has_local cur new c',
   set_configuration closed has_local cur new = (c', Ok tt) ->
   closed = false /\ changes_immutable has_local cur new = false /\
-  servers_valid (servers new) = true /\ c' = mutable_tail cur new.
+  servers_valid (servers new) = true /\ c' = mutable_tail (adopt_certs cur new) new.
 Proof. exact success_effect. Qed.
 Print Assumptions c39_success_effect.
 
@@ -82,14 +155,31 @@ Theorem c39_error_class : forall closed has_local cur new c' e,
 Proof. exact error_class. Qed.
 Print Assumptions c39_error_class.
 
+(* FULL STATEMENT, false for the code: invalid ICE servers are rejected
+   without partial changes *)
+Theorem c39_servers_atomic_refuted : exists has_local cur new,
+  changes_immutable has_local cur new = false /\ servers_valid (servers new) = false /\
+  set_configuration false has_local cur new <> (cur, Err E_access).
+Proof. exact servers_atomic_refuted. Qed.
+Print Assumptions c39_servers_atomic_refuted.
+
 (* invalid ICE servers are rejected without partial changes, wherever the
    invalid server stands in the list *)
-Theorem c39_servers_atomic : forall has_local cur new (a : list server) s b,
+Theorem c39_servers_atomic_partial : forall has_local cur new (a : list server) s b,
+  expiry_agrees (certs cur) (certs new) = true ->
   changes_immutable has_local cur new = false ->
   servers new = (a ++ s :: b)%list -> server_valid s = false ->
   set_configuration false has_local cur new = (cur, Err E_access).
-Proof. exact servers_atomic_anywhere. Qed.
-Print Assumptions c39_servers_atomic.
+Proof. exact servers_atomic_anywhere_partial. Qed.
+Print Assumptions c39_servers_atomic_partial.
+
+(* no guard: InvalidAccess, and nothing but the reported expiry touched *)
+Theorem c39_servers_atomic_upto_expiry : forall has_local cur new,
+  changes_immutable has_local cur new = false -> servers_valid (servers new) = false ->
+  snd (set_configuration false has_local cur new) = Err E_access /\
+  with_certs (fst (set_configuration false has_local cur new)) (certs cur) = cur.
+Proof. exact servers_atomic_upto_expiry. Qed.
+Print Assumptions c39_servers_atomic_upto_expiry.
 
 (* no index out of range in the certificate comparison *)
 Theorem c39_never_panics : forall closed has_local cur new,
@@ -98,23 +188,70 @@ Proof. exact never_panics. Qed.
 Print Assumptions c39_never_panics.
 
 (* over any history of SetConfiguration calls, SetLocalDescription and Close on
-   one connection the immutable settings are those NewPeerConnection stored *)
-Theorem c39_history_immutable : forall os s,
+   one connection the immutable settings are those NewPeerConnection stored --
+   where expiry is a function f of the x509 identity throughout the history
+   (true of parsed certificates); the full statement falls with
+   c39_immutable_refuted *)
+Theorem c39_history_immutable_partial : forall f os s,
+  expiry_from f (certs (conf s)) -> Forall (op_expiry_from f) os ->
   immutable_part (conf (crun s os)) = immutable_part (conf s).
-Proof. exact crun_immutable. Qed.
-Print Assumptions c39_history_immutable.
+Proof. exact crun_immutable_partial. Qed.
+Print Assumptions c39_history_immutable_partial.
+
+(* no guard: policies, identity, pool, semantics and the certificates' key
+   type, key and x509 identity are those NewPeerConnection stored *)
+Theorem c39_history_immutable_upto_expiry : forall os s,
+  immutable_ids (conf (crun s os)) = immutable_ids (conf s).
+Proof. exact crun_immutable_ids. Qed.
+Print Assumptions c39_history_immutable_upto_expiry.
 
 (* the stored policies are never zero, so "non-zero and different" is the only
    way to ask for a change *)
-Theorem c39_init_nonzero : forall c c', init_configuration c = Ok c' ->
+Theorem c39_init_nonzero : forall now c c', init_configuration now c = Ok c' ->
   bundle c' <> 0%Z /\ rtcpmux c' <> 0%Z /\ certs c' <> [] /\ (pool c' = 0 \/ pool c' = 1)%N.
 Proof. exact init_nonzero. Qed.
 Print Assumptions c39_init_nonzero.
 
+(* ---- the clock ---- *)
+(* "!Expires().IsZero() && now.After(Expires())" *)
+Theorem c39_cert_expired_iff : forall now c,
+  cert_expired now c = true <-> (c_expires c <> 0 /\ c_expires c < now)%Z.
+Proof. exact cert_expired_iff. Qed.
+Print Assumptions c39_cert_expired_iff.
+
+Theorem c39_zero_expiry_never_expired : forall now c,
+  c_expires c = 0%Z -> cert_expired now c = false.
+Proof. exact zero_expiry_never_expired. Qed.
+Print Assumptions c39_zero_expiry_never_expired.
+
+(* NewPeerConnection with an expired certificate anywhere in the list fails
+   with InvalidAccess, for every clock reading and whatever else the
+   configuration holds (the check stands before the pool-size and ICE-server
+   checks) *)
+Theorem c39_init_rejects_expired : forall now c,
+  existsb (cert_expired now) (certs c) = true -> init_configuration now c = Err E_access.
+Proof. exact init_rejects_expired. Qed.
+Print Assumptions c39_init_rejects_expired.
+
+(* no certificate NewPeerConnection stores is expired at the instant it read *)
+Theorem c39_init_stored_unexpired : forall now c c',
+  init_configuration now c = Ok c' -> existsb (cert_expired now) (certs c') = false.
+Proof. exact init_stored_unexpired. Qed.
+Print Assumptions c39_init_stored_unexpired.
+
+(* SetConfiguration has no expiry check (no clock among its inputs): naming the
+   stored configuration again succeeds and changes nothing -- also when every
+   stored certificate has expired since (c39_ex_expired_since_accepted) *)
+Theorem c39_set_configuration_no_expiry_check : forall has_local cur,
+  forallb comparable (certs cur) = true -> servers_valid (servers cur) = true ->
+  set_configuration false has_local cur cur = (cur, Ok tt).
+Proof. exact same_configuration_accepted. Qed.
+Print Assumptions c39_set_configuration_no_expiry_check.
+
 (* non-trivial instances *)
 Definition ex_cur : config :=
   {| servers := []; policy := 0; bundle := 2; rtcpmux := 1; identity := "alice";
-     certs := [{| c_ktype := KEcdsa; c_key := 0; c_x509 := 0 |}];
+     certs := [{| c_ktype := KEcdsa; c_key := 0; c_x509 := 0; c_expires := 5000 |}];
      pool := 1; semantics := 0; always_dc := false |}.
 Definition ex_bad_server : server :=
   {| s_id := 2; s_urls := [UTurn]; s_user := true; s_cred := CNil; s_credtype := 0 |}.
@@ -142,7 +279,7 @@ Proof. split; reflexivity. Qed.
 
 (* a renewed certificate: same ECDSA key 0, x509 certificate 4 instead of 0 *)
 Definition ex_renewed : config :=
-  with_certs ex_cur [{| c_ktype := KEcdsa; c_key := 0; c_x509 := 4 |}].
+  with_certs ex_cur [{| c_ktype := KEcdsa; c_key := 0; c_x509 := 4; c_expires := 6000 |}].
 
 Example c39_ex_same_key_other_certificate :
   set_configuration false false ex_cur ex_renewed = (ex_cur, Err E_modification) /\
@@ -163,10 +300,43 @@ Proof. repeat split; try reflexivity. discriminate. Qed.
 
 (* two-certificate list in the other order; the same certificate twice *)
 Example c39_ex_reordered_and_duplicated :
-  let a := {| c_ktype := KEcdsa; c_key := 0; c_x509 := 0 |} in
-  let b := {| c_ktype := KRsa; c_key := 3; c_x509 := 7 |} in
+  let a := {| c_ktype := KEcdsa; c_key := 0; c_x509 := 0; c_expires := 5000 |} in
+  let b := {| c_ktype := KRsa; c_key := 3; c_x509 := 7; c_expires := 0 |} in
   let cur := with_certs ex_cur [a; b] in
   set_configuration false false cur (with_certs cur [b; a]) = (cur, Err E_modification) /\
   set_configuration false false cur (with_certs cur [a; a]) = (cur, Err E_modification) /\
   snd (set_configuration false false cur (with_certs cur [a; b])) = Ok tt.
+Proof. repeat split. Qed.
+
+(* ---- the clock: instances ---- *)
+Open Scope Z_scope.
+(* stored at 4000 (the certificate expires at 5000): accepted; at 5001 the same
+   configuration is refused by NewPeerConnection -- and accepted by
+   SetConfiguration on the connection that holds it *)
+Example c39_ex_expired_since_accepted :
+  let c := with_tail ex_cur 0 false [] in
+  init_configuration 4000 c = Ok c /\
+  init_configuration 5001 c = Err E_access /\
+  existsb (cert_expired 5001) (certs c) = true /\
+  set_configuration false true c c = (c, Ok tt).
+Proof. repeat split. Qed.
+
+(* exactly at the expiry instant the certificate is still good (After is strict);
+   a zero expiry never expires *)
+Example c39_ex_boundary_and_zero :
+  let c e := with_certs ex_cur [{| c_ktype := KEcdsa; c_key := 0; c_x509 := 0; c_expires := e |}] in
+  init_configuration 5000 (c 5000) = Ok (c 5000) /\
+  init_configuration 5001 (c 5000) = Err E_access /\
+  init_configuration 5001 (c 0) = Ok (c 0) /\
+  (* the expired one second in the list, behind a good one; and together with
+     a pool size the constructor would refuse with NotSupported *)
+  init_configuration 5001 (with_certs ex_cur (certs (c 0) ++ certs (c 5000))) = Err E_access.
+Proof. repeat split. Qed.
+
+(* the premises of the _partial theorems hold for distinct certificates, fail
+   for the refutation witness *)
+Example c39_ex_expiry_agrees :
+  expiry_agrees (certs ex_cur) (certs ex_renewed) = true /\
+  expiry_agrees (certs ex_cur) (certs ex_cur) = true /\
+  expiry_agrees (certs wit_cur) (certs wit_new) = false.
 Proof. repeat split. Qed.
